@@ -248,14 +248,163 @@ func inQuotes(c *Ctx, fn *ssa.Function, call ssa.Instruction) bool {
 func byteEvents(from *ssa.BasicBlock, stop func(*ssa.BasicBlock) bool, isSubject func(ssa.Value) bool, b byte, event func(ssa.Instruction) string) [][]string {
 	var out [][]string
 	type frame struct {
-		blk   *ssa.BasicBlock
-		idx   int
-		subj  func(ssa.Value) bool
-		outer bool
+		blk  *ssa.BasicBlock
+		idx  int
+		subj func(ssa.Value) bool
+		call *ssa.Call
+		args map[*ssa.Parameter]ssa.Value
 	}
-	var run func(blk *ssa.BasicBlock, idx int, subj func(ssa.Value) bool, ev []string, stack []frame, depth int)
-	run = func(blk *ssa.BasicBlock, idx int, subj func(ssa.Value) bool, ev []string, stack []frame, depth int) {
-		if depth > 80 {
+	// concrete values known on the current path (the subject byte, constants,
+	// comparisons of those, phis resolved by the edge taken, helper results)
+	type env map[ssa.Value]int64
+	with := func(e env, v ssa.Value, k int64) env {
+		n := make(env, len(e)+1)
+		for a, b := range e {
+			n[a] = b
+		}
+		n[v] = k
+		return n
+	}
+	var eval func(v ssa.Value, subj func(ssa.Value) bool, e env, d int) (int64, bool)
+	eval = func(v ssa.Value, subj func(ssa.Value) bool, e env, d int) (int64, bool) {
+		if d > 12 {
+			return 0, false
+		}
+		if subj(v) {
+			return int64(b), true
+		}
+		if k, ok := e[v]; ok {
+			return k, true
+		}
+		switch x := v.(type) {
+		case *ssa.Const:
+			if k, ok := ConstInt(x); ok {
+				return k, true
+			}
+			if x.Value != nil && x.Value.Kind() == constant.Bool {
+				if constant.BoolVal(x.Value) {
+					return 1, true
+				}
+				return 0, true
+			}
+		case *ssa.Convert:
+			if bt, ok := x.Type().Underlying().(*types.Basic); ok && bt.Info()&types.IsInteger != 0 {
+				if k, ok := eval(x.X, subj, e, d+1); ok {
+					switch bt.Kind() {
+					case types.Uint8:
+						return int64(uint8(k)), true
+					case types.Int8:
+						return int64(int8(k)), true
+					case types.Int32:
+						return int64(int32(k)), true
+					case types.Uint32:
+						return int64(uint32(k)), true
+					case types.Int, types.Int64, types.Uint, types.Uint64, types.Int16, types.Uint16:
+						if bt.Kind() == types.Int16 {
+							return int64(int16(k)), true
+						}
+						if bt.Kind() == types.Uint16 {
+							return int64(uint16(k)), true
+						}
+						return k, true
+					}
+				}
+			}
+		case *ssa.ChangeType:
+			return eval(x.X, subj, e, d+1)
+		case *ssa.UnOp:
+			if x.Op == token.NOT {
+				if k, ok := eval(x.X, subj, e, d+1); ok {
+					return 1 - k, true
+				}
+			}
+		case *ssa.BinOp:
+			l, ok1 := eval(x.X, subj, e, d+1)
+			r, ok2 := eval(x.Y, subj, e, d+1)
+			if ok1 && ok2 {
+				bi := func(c bool) (int64, bool) {
+					if c {
+						return 1, true
+					}
+					return 0, true
+				}
+				switch x.Op {
+				case token.EQL:
+					return bi(l == r)
+				case token.NEQ:
+					return bi(l != r)
+				case token.LSS:
+					return bi(l < r)
+				case token.LEQ:
+					return bi(l <= r)
+				case token.GTR:
+					return bi(l > r)
+				case token.GEQ:
+					return bi(l >= r)
+				case token.AND:
+					return l & r, true
+				case token.OR:
+					return l | r, true
+				case token.SHR:
+					if r >= 0 && r < 64 {
+						return int64(uint64(l) >> uint(r)), true
+					}
+				case token.SUB:
+					return l - r, true
+				case token.ADD:
+					return l + r, true
+				}
+			}
+		}
+		return 0, false
+	}
+	var run func(blk *ssa.BasicBlock, idx int, subj func(ssa.Value) bool, ev []string, stack []frame, e env, depth int)
+	// enter a successor: resolve its phis by the edge taken
+	enter := func(from, to *ssa.BasicBlock, subj func(ssa.Value) bool, ev []string, stack []frame, e env, depth int) {
+		pi := -1
+		for i, p := range to.Preds {
+			if p == from {
+				pi = i
+			}
+		}
+		var sets []struct {
+			v ssa.Value
+			k int64
+		}
+		drop := []ssa.Value{}
+		for _, in := range to.Instrs {
+			ph, ok := in.(*ssa.Phi)
+			if !ok {
+				break
+			}
+			if pi >= 0 {
+				if k, ok := eval(ph.Edges[pi], subj, e, 0); ok {
+					sets = append(sets, struct {
+						v ssa.Value
+						k int64
+					}{ph, k})
+					continue
+				}
+			}
+			drop = append(drop, ph)
+		}
+		if len(sets) > 0 || len(drop) > 0 {
+			n := make(env, len(e)+len(sets))
+			for a, b := range e {
+				n[a] = b
+			}
+			for _, d := range drop {
+				delete(n, d)
+			}
+			for _, s := range sets {
+				n[s.v] = s.k
+			}
+			e = n
+		}
+		run(to, 0, subj, ev, stack, e, depth+1)
+	}
+	run = func(blk *ssa.BasicBlock, idx int, subj func(ssa.Value) bool, ev []string, stack []frame, e env, depth int) {
+		if depth > 120 || len(out) > 4096 {
 			out = append(out, append(ev, "…"))
 			return
 		}
@@ -270,24 +419,45 @@ func byteEvents(from *ssa.BasicBlock, stop func(*ssa.BasicBlock) bool, isSubject
 			}
 			switch x := in.(type) {
 			case *ssa.Call:
-				// an eligible helper that receives the subject byte is explored as if inlined
-				if h := helperOf(x); h != nil && len(stack) < 3 {
-					var sp *ssa.Parameter
-					for ai, a := range x.Call.Args {
-						if subj(a) && ai < len(h.Params) {
-							sp = h.Params[ai]
+				// an eligible helper is explored as if inlined; the subject byte and
+				// other concretely known arguments are carried into it
+				if h := helperOf(x); h != nil && len(stack) < 3 && len(h.Blocks) > 0 {
+					onStack := false
+					for _, f := range stack {
+						if f.call != nil && helperOf(f.call) == h {
+							onStack = true
 						}
 					}
-					if sp != nil {
-						ns := append(append([]frame{}, stack...), frame{blk, k + 1, subj, true})
-						run(h.Blocks[0], 0, func(v ssa.Value) bool { return v == ssa.Value(sp) }, ev, ns, depth+1)
-						return
+					if onStack {
+						break
 					}
+					args := x.Call.Args
+					var sp *ssa.Parameter
+					ne := e
+					for ai, a := range args {
+						if ai >= len(h.Params) {
+							break
+						}
+						if subj(a) {
+							sp = h.Params[ai]
+						} else if kv, ok := eval(a, subj, e, 0); ok {
+							ne = with(ne, h.Params[ai], kv)
+						}
+					}
+					ns := append(append([]frame{}, stack...), frame{blk: blk, idx: k + 1, subj: subj, call: x})
+					run(h.Blocks[0], 0, func(v ssa.Value) bool { return sp != nil && v == ssa.Value(sp) }, ev, ns, ne, depth+1)
+					return
 				}
 			case *ssa.Return:
 				if len(stack) > 0 {
 					top := stack[len(stack)-1]
-					run(top.blk, top.idx, top.subj, ev, stack[:len(stack)-1], depth+1)
+					ne := e
+					if len(x.Results) == 1 && top.call != nil {
+						if kv, ok := eval(x.Results[0], subj, e, 0); ok {
+							ne = with(ne, top.call, kv)
+						}
+					}
+					run(top.blk, top.idx, top.subj, ev, stack[:len(stack)-1], ne, depth+1)
 					return
 				}
 				out = append(out, append(ev, "return"))
@@ -296,28 +466,24 @@ func byteEvents(from *ssa.BasicBlock, stop func(*ssa.BasicBlock) bool, isSubject
 				out = append(out, append(ev, "panic"))
 				return
 			case *ssa.If:
-				if bo, ok := x.Cond.(*ssa.BinOp); ok && subj(bo.X) {
-					if kk, ok := ConstInt(bo.Y); ok {
-						v := int64(b)
-						res := map[token.Token]bool{token.EQL: v == kk, token.NEQ: v != kk, token.LSS: v < kk, token.LEQ: v <= kk, token.GTR: v > kk, token.GEQ: v >= kk}[bo.Op]
-						if res {
-							run(blk.Succs[0], 0, subj, ev, stack, depth+1)
-						} else {
-							run(blk.Succs[1], 0, subj, ev, stack, depth+1)
-						}
-						return
+				if kv, ok := eval(x.Cond, subj, e, 0); ok {
+					if kv != 0 {
+						enter(blk, blk.Succs[0], subj, ev, stack, e, depth)
+					} else {
+						enter(blk, blk.Succs[1], subj, ev, stack, e, depth)
 					}
+					return
 				}
-				run(blk.Succs[0], 0, subj, ev, stack, depth+1)
-				run(blk.Succs[1], 0, subj, ev, stack, depth+1)
+				enter(blk, blk.Succs[0], subj, ev, stack, e, depth)
+				enter(blk, blk.Succs[1], subj, ev, stack, e, depth)
 				return
 			case *ssa.Jump:
-				run(blk.Succs[0], 0, subj, ev, stack, depth+1)
+				enter(blk, blk.Succs[0], subj, ev, stack, e, depth)
 				return
 			}
 		}
 	}
-	run(from, 0, isSubject, nil, nil, 0)
+	run(from, 0, isSubject, nil, nil, env{}, 0)
 	return out
 }
 
@@ -807,19 +973,18 @@ func c1Separators(c *Ctx, rule string) {
 	c.Check(len(commaSites) == 1 && commaSites[0] == "addElementSeparator", rule, sep.String(), "only-comma-writer", sep.Pos(), "',' is written only by addElementSeparator (sites: %v); an unconditional comma elsewhere yields '{,' or ',,'", commaSites)
 	// the no-separator byte set
 	var sw *ssa.BasicBlock
+	subjPrefix := "Bytes(" + sep.Params[0].Name() + ".buf)["
 	for _, b := range sep.Blocks {
 		for _, in := range b.Instrs {
-			if iff, ok := in.(*ssa.If); ok {
-				if bo, ok := iff.Cond.(*ssa.BinOp); ok && strings.HasPrefix(Desc(bo.X), "Bytes(enc.buf)[") && sw == nil {
-					sw = b
-				}
+			if u, ok := in.(*ssa.UnOp); ok && u.Op == token.MUL && strings.HasPrefix(Desc(u), subjPrefix) && sw == nil {
+				sw = b
 			}
 		}
 	}
 	if sw == nil {
 		c.Und(rule, sep.String(), "byte-set", sep.Pos(), "cannot find the last-byte test")
 	} else {
-		isSubj := func(v ssa.Value) bool { return strings.HasPrefix(Desc(v), "Bytes(enc.buf)[") }
+		isSubj := func(v ssa.Value) bool { return strings.HasPrefix(Desc(v), subjPrefix) }
 		event := func(in ssa.Instruction) string {
 			if b, ok := appendByteConst(c, in); ok {
 				return string(b)
